@@ -2,6 +2,7 @@ package latchsim
 
 import (
 	"fmt"
+	"math/rand"
 	"sort"
 	"strings"
 	"sync"
@@ -194,7 +195,13 @@ func (e *enumSpace) scenario(idx int) (*Scenario, bool) {
 	order := e.orders[len(sh.sets)][idx-e.cum[si]]
 	sc := &Scenario{Kind: "direct", Gran: sh.gran, Slots: sh.slots, Exhaustive: true, Budget: 200000}
 	for i, s := range sh.sets {
-		sc.Txns = append(sc.Txns, Txn{ID: i, Keys: append([]string(nil), e.subs[s]...)})
+		keys := append([]string(nil), e.subs[s]...)
+		if i%2 == 1 {
+			// the order in which the caller lists its keys must not matter: every other
+			// transaction passes them in descending order
+			sort.Sort(sort.Reverse(sort.StringSlice(keys)))
+		}
+		sc.Txns = append(sc.Txns, Txn{ID: i, Keys: keys})
 	}
 	applyOrder(sc.Txns, order, 10)
 	return sc, true
@@ -245,7 +252,7 @@ func randOrder(r interface{ Intn(int) int }, n int) []int {
 
 // genRandom produces a seeded scenario with <= 4 transactions x <= 3 keys.
 func genRandom(cfg simkit.RunConfig, kind string) *Scenario {
-	r := simkit.Rand(cfg.Seed, "gen")
+	var r *rand.Rand = simkit.Rand(cfg.Seed, "gen")
 	sc := &Scenario{Kind: kind, OrderSeed: simkit.NewHasher(cfg.Seed, "order").U64("o")}
 	n := 2 + r.Intn(3)
 	poolN := 3 + r.Intn(3) // 3..5 keys
@@ -255,7 +262,10 @@ func genRandom(cfg simkit.RunConfig, kind string) *Scenario {
 	}
 	p := pool(poolN)
 	for i := 0; i < n; i++ {
-		sc.Txns = append(sc.Txns, Txn{ID: i, Keys: randKeys(r, p, 3)})
+		keys := randKeys(r, p, 3)
+		// the order in which the caller lists its keys must not matter
+		r.Shuffle(len(keys), func(a, b int) { keys[a], keys[b] = keys[b], keys[a] })
+		sc.Txns = append(sc.Txns, Txn{ID: i, Keys: keys})
 	}
 	applyOrder(sc.Txns, randOrder(r, n), 10)
 	if kind == "direct" {
